@@ -58,7 +58,8 @@ def value_classes(rng):
     out.append(("x_nonresidue", x, 5))
     P = mul(12345, G)
     out += [("zero_zero", 0, 0), ("x_is_p", p, P[1]), ("y_is_p", P[0], p), ("y_max", P[0], 2 ** 256 - 1), ("x_max", 2 ** 256 - 1, P[1]),
-            ("p_minus_1", p - 1, p - 1), ("x_zero_valid", 0, sqrt_p(b)), ("x_zero_wrong", 0, 1), ("one_one", 1, 1)]
+            ("p_minus_1", p - 1, p - 1), ("x_zero_valid", 0, sqrt_p(b)), ("x_zero_wrong", 0, 1), ("one_one", 1, 1),
+            ("x_is_p_congruent", p, sqrt_p(b)), ("x_is_p_congruent_neg", p, p - sqrt_p(b))]
     return out
 
 
